@@ -1291,8 +1291,11 @@ proof fn theorem_written_condition(l: EList, env: Env)
 // =========================================================================================
 //@ raw
 // the parser's s-expression and state: opaque here
+#[verifier::external_body]
 pub struct SExpr { verif_opaque: u8 }
+#[verifier::external_body]
 pub struct ParserState { verif_opaque: u8 }
+#[verifier::external_body]
 pub struct VerifError { verif_opaque: u8 }
 type Result<T> = core::result::Result<T, VerifError>;
 // R13: bail_expr!(expr, "...") -> return Err(verif_bail()); the formatted message is dropped
